@@ -164,7 +164,12 @@ fn corrupt(g: &mut Gen, z: &ZoneModel, text: &str, c: &Corruption) -> Option<Str
                 return None;
             }
             let rec = if g.bool() { "outside.invalid. 300 IN A 1.2.3.4\n" } else { "*.outside.invalid. 300 IN A 1.2.3.4\n" };
-            format!("{text}{rec}")
+            // after everything else, or before it (that is, before the SOA)
+            if g.bool() {
+                format!("{text}{rec}")
+            } else {
+                format!("{rec}{text}")
+            }
         }
         Corruption::RelativeWithoutOrigin => {
             let rec = g.pick(&["rel 300 IN A 1.2.3.4\n", "@ 300 IN A 1.2.3.4\n", "* 300 IN A 1.2.3.4\n", "a. 300 IN NS rel\n", "$ORIGIN rel\n"]);
